@@ -12,6 +12,9 @@ import (
 
 type implSep struct{}
 
+// diffSoftBound: generated programs that run longer than R-lua's step bound are skipped, not judged
+var diffSoftBound bool
+
 type diffInput struct {
 	name string
 	v    LValue // scalar
@@ -53,10 +56,15 @@ func diffRun(label, src string, inputs []diffInput, opt Options) {
 	chunk, perr := parse.Parse(strings.NewReader(src), "ref")
 	VAssert(perr == nil, "diff: template parses: "+label)
 	R := newRlua()
+	R.softBound = diffSoftBound
 	for _, in := range inputs {
 		R.globals.rawset(LString(in.name), in.v)
 	}
 	rresults, rerrv, rfailed := R.run(chunk, nil)
+	if R.tooLong {
+		VReach("skipped: reference run longer than the step bound")
+		return
+	}
 	// compare
 	if VIsNative() {
 		// development aid (VERIF_NOTES=1): both traces in text form
@@ -313,6 +321,8 @@ func H_C01_tmpl() {
 
 
 var c02Templates = []diffTmpl{
+	// method sugar with an open last argument (call or vararg): every value is passed
+	{"local o = {}; function o:m(...) return select('#', ...), ... end; local function f() return x, y end; emit(o:m(f())); emit(o:m(z, f())); local function g(...) return o:m(...) end; emit(g(x, y, z)); emit(o:m((f()))); local function h(...) return o:m(z, ...) end; emit(h()); emit(h(x))", "num"},
 	// parameters: missing are nil, surplus dropped or collected
 	{"local function f(a, b, c) emit(a, b, c) end; f(); f(x); f(x, y); f(x, y, z); f(x, y, z, 1)", "num"},
 	{"local function f(a, ...) emit(a, select('#', ...), ...) end; f(); f(x); f(x, y); f(x, y, z)", "num"},
@@ -372,7 +382,7 @@ var c02Templates = []diffTmpl{
 
 // C02.tmpl — call and return adjustment, whole pipeline against R-lua.
 //
-//verif:harness prop=C02 tier=quick bounds="39 call templates: 0..3 fixed parameters x vararg x 0..4 arguments x result contexts (statement, parenthesised, middle, last in argument list / return / constructor / assignment), Lua and Go callees, method sugar, __call, tail calls incl. depth 60 > CallStackSize 32; inputs 3 symbolic float64 (or 32-bit ints)"
+//verif:harness prop=C02 tier=quick bounds="40 call templates: 0..3 fixed parameters x vararg x 0..4 arguments x result contexts (statement, parenthesised, middle, last in argument list / return / constructor / assignment), Lua and Go callees, method sugar, __call, tail calls incl. depth 60 > CallStackSize 32; inputs 3 symbolic float64 (or 32-bit ints)"
 func H_C02_tmpl() {
 	t := c02Templates[VChoice(len(c02Templates))]
 	diffRun(t.src, t.src, c01Inputs(t.kind), Options{CallStackSize: 32, RegistrySize: 256})
